@@ -275,6 +275,25 @@ def mc_monitors(sc, runs, ref_runs):
                 fails.append(("C16:status_counts", "run %d: statuses %s but evaluated %s" % (k, r["status"], cnt)))
             if not debug and r["status"]:
                 fails.append(("C16:status_counts", "run %d: statuses reported outside Debug mode" % k))
+        # --- C19: library predicates against their documented meaning, from plain facts of the state
+        if r["kind"] == "RUN" and r["before"] and r["checks"] and "pb" in r["checks"][0]:
+            d0 = int(r["before"]["d"])
+            f11 = False
+            for c in r["checks"]:
+                pb, dep = c["pb"], int(c["d"])
+                for i, d in enumerate([0, 1, 2, 3, 5]):
+                    if pb[i] != ("1" if dep > d else "0"):
+                        fails.append(("C19:depth_predicates", "invariants::state_depth(%d) on a state of depth %d gave %s" % (d, dep, pb[i])))
+                for i, d in enumerate([1, 2, 4, 8]):
+                    if pb[5 + i] != ("1" if dep - d0 > d else "0") and not f11:
+                        f11 = True
+                        fails.append(("C19:state_depth_current_run",
+                                      "invariants::state_depth_current_run(%d) gave %s on a state at run depth %d" % (d, pb[5 + i], dep - d0)))
+                for i, d in enumerate([0, 2, 4]):
+                    if pb[22 + i] != ("1" if dep >= d else "0"):
+                        fails.append(("C19:depth_predicates", "goals::depth_reached(%d) at depth %d gave %s" % (d, dep, pb[22 + i])))
+                if pb[21] != "1":
+                    fails.append(("C19:depth_predicates", "goals::always_ok returned None"))
         # --- C02 / C03: against the exploration of the reference semantics
         if ref_runs is not None and k < len(ref_runs) and r["kind"] == "RUN":
             rr = ref_runs[k]
@@ -327,7 +346,8 @@ def mc_run_all(ctx, scs, can_run_model, tag, with_ref=True):
                                 "impl_observation_head": il[:6]})
     ctx.clauses.update(["C09:rolled_back", "C09:mode_restored", "C14:purged", "C14:stays_silent", "C03:verdict_ok",
                         "C03:error_genuine", "C02:error_trace", "C16:collected_sound", "C16:collected_complete",
-                        "C16:status_counts", "C02:state_genuine", "C03:exhaustive", "C03:verdict_kind", "C20:no_panic"])
+                        "C16:status_counts", "C02:state_genuine", "C03:exhaustive", "C03:verdict_kind", "C20:no_panic",
+                        "C19:depth_predicates", "C19:state_depth_current_run"])
     return impl, parsed
 
 
@@ -704,17 +724,140 @@ def suite_netsweep(ctx, can_run_model):
 
 
 # ---------------------------------------------------------------------------------------------------
+# MC timer-contract suite (C07 model-checking half; C02 "nothing overridden or cancelled is delivered")
+
+def mc_timer_contract(trace_entries):
+    """TimerSpec on one model-checked path: returns None or a description of the first violation"""
+    pending = {}
+    started = False
+    for e in trace_entries:
+        t = e.split()
+        k = t[0]
+        if k == "McTimerSet":
+            key = (t[1], t[2])
+            pending[key] = pending.get(key, 0) + 1      # >1 = an overridden instance is still around (F10)
+            if pending[key] > 1:
+                pending[key] = 1                        # the contract: the new instance REPLACES the old one
+                pending[(key, "overridden")] = pending.get((key, "overridden"), 0) + 1
+        elif k == "McTimerCancelled":
+            pending.pop((t[1], t[2]), None)
+        elif k == "McTimerFired":
+            key = (t[1], t[2])
+            if pending.get(key, 0) == 0:
+                if pending.get((key, "overridden"), 0) > 0:
+                    return "overridden", "timer (%s,%s) fired although it was overridden (the contract allows one firing per set)" % key
+                return "ghost", "timer (%s,%s) fired although no instance was pending" % key
+            pending[key] = 0
+    return None
+
+
+def suite_mc_timers(ctx, can_run_model):
+    rng = random.Random(ctx.seed * 1000003 + 53)
+    n = ctx.scale(80, 3000)
+    scs = []
+    meta = {}
+    witness = load_corpus("MC")            # known-finding witnesses and minimised failures first
+    for j in range(n):
+        feat = gen_mc.gen_features(rng)
+        feat["timers"] = True
+        feat["clock"] = False
+        feat["dupl"] = False
+        base = gen_mc.gen_base(rng, feat)
+        feat_count(ctx, base["feat"])
+        st = rng.choice(["BFS", "DFS"])
+        sc = gen_mc.variant(base, "tm%d-%d" % (ctx.seed, j), st, rng.choice(["FULL", "PARTIAL"]), debug=0, repeat=1)
+        sc = (sc[0], sc[1], ["VERBOSE"] + sc[2])
+        scs.append(sc)
+        meta[sc[1]] = base["feat"]
+    for w in witness:
+        meta[w[1]] = {"override": True, "witness": True}
+    scs = witness + scs
+    impl = vlib.run_impl(scs, "tm-impl")
+    model = vlib.run_model(scs, "tm-model") if can_run_model else {}
+    ctx.clauses.update(["C07:mc_timer_contract", "C02:overridden_delivered"])
+    for sc in scs:
+        sid = sc[1]
+        ctx.evaluations += 1
+        il = impl.get(sid, [])
+        if can_run_model:
+            d = vlib.first_diff(il, model.get(sid, []))
+            if d is not None:
+                ctx.disagreements.append({"suite": "MC(verbose) model-vs-impl", "scenario": vlib.scenario_text(sc),
+                                          "diff": {"line": d[0], "impl": d[1][:300], "model": d[2][:300]}})
+            else:
+                ctx.validated += 1
+        nstates = 0
+        bad = None
+        for l in il:
+            if l.startswith("CHECK"):
+                nstates += 1
+                tr = parse_trace_text(l)
+                if "McStarted" in tr:
+                    tr = tr[tr.index("McStarted") + 1:]
+                v = mc_timer_contract(tr)
+                if v is not None and bad is None:
+                    bad = v
+        if bad is not None:
+            for clause in ("C07:mc_timer_contract", "C02:overridden_delivered"):
+                ctx.monitor_failures.append({"clause": clause, "detail": bad[1], "kind": bad[0],
+                                             "scenario": vlib.scenario_text(sc), "impl": il[:6], "seed": ctx.seed,
+                                             "suite": "MCTIMERS", "feat": meta[sid]})
+        if nstates >= 6:
+            ctx.nontrivial.add(sc_hash(sc))
+        ctx.count("states_checked", nstates)
+
+
+# ---------------------------------------------------------------------------------------------------
+# clock-reading programs (known finding F14): witness + random stream, Full vs Disabled
+
+def suite_clock(ctx, can_run_model):
+    base_w = [l.rstrip("\n") for l in open(os.path.join(vlib.ROOT, "corpus", "F14-clock.base")) if l.strip()]
+    rng = random.Random(ctx.seed * 1000003 + 59)
+    bases = [("w", base_w, {"clock": True, "witness": True})]
+    for j in range(ctx.scale(12, 400)):
+        feat = gen_mc.gen_features(rng)
+        feat.update({"clock": True, "stateless": False, "override": False, "dupl": False})
+        b = gen_mc.gen_base(rng, feat)
+        bases.append(("r%d" % j, b["sys"] + b["cb"] + b["preds"], feat))
+    scs = []
+    for name, lines, feat in bases:
+        lines = [l for l in lines if not l.startswith("PRED PRUNE")] + ["PRED PRUNE DEPTHGT 6"]
+        for vm in ("FULL", "DISABLED"):
+            scs.append(("MC", "ck%d-%s-%s" % (ctx.seed, name, vm), lines + ["RUN BFS %s 0 %d" % (vm, gen_mc.FUEL)]))
+    impl, parsed = mc_run_all(ctx, scs, can_run_model, "ck", with_ref=False)
+    ctx.clauses.add("C11:modes_same_states")
+    for name, lines, feat in bases:
+        a = parsed["ck%d-%s-FULL" % (ctx.seed, name)]
+        b = parsed["ck%d-%s-DISABLED" % (ctx.seed, name)]
+        if a and b and a[0]["result"] == ["OK"] and b[0]["result"] == ["OK"]:
+            if red_set(a[0]) != red_set(b[0]):
+                sc = [x for x in scs if x[1] == "ck%d-%s-FULL" % (ctx.seed, name)][0]
+                ctx.monitor_failures.append({"clause": "C11:modes_same_states",
+                                             "detail": "Full evaluates %d distinct states, Disabled %d (clock-reading program)" % (
+                                                 len(red_set(a[0])), len(red_set(b[0]))),
+                                             "scenario": vlib.scenario_text(sc), "impl": impl[sc[1]][:6], "seed": ctx.seed,
+                                             "suite": "MCCLOCK", "feat": feat})
+
+
+# ---------------------------------------------------------------------------------------------------
 
 def match_known(mf, known):
     for k in known:
-        if mf["clause"] in k.get("clauses", []) and k.get("suite") == mf.get("suite"):
+        if mf["clause"] in k.get("clauses", []):
             pred = KNOWN_CLASS.get(k.get("class"))
             if pred and pred(mf):
                 return k
     return None
 
 
-KNOWN_CLASS = {}
+KNOWN_CLASS = {
+    # F10: MC set_timer on a pending timer leaves the old TimerFired event pending: the overridden instance fires
+    "F10_override": lambda mf: mf.get("kind") == "overridden",
+    # F11: invariants::state_depth_current_run measures trace length
+    "F11_depth_current_run": lambda mf: True,
+    # F14: clock-reading programs: equal states at different depths have different futures
+    "F14_clock": lambda mf: bool(mf.get("feat", {}).get("clock")),
+}
 
 
 def replay(prop, path):
@@ -776,6 +919,13 @@ PROPERTIES = {
         "durations passed to step_for_duration are non-negative (a negative one moves the clock backwards: "
         "C06_negative_duration_refuted)"]},
     "C08": {"suites": [suite_sim], "rule": SIM_RULE, "assumptions": SIM_ASSUMPTIONS},
+    "C17": {"suites": [suite_sim], "rule": SIM_RULE, "assumptions": SIM_ASSUMPTIONS},
+    "C07": {"suites": [suite_sim, suite_mc_timers],
+            "rule": SIM_RULE + " Model-checking half: verbose MC scenarios over programs with set_timer / set_timer_once / "
+                    "cancel_timer on 1-2 names inside one handler and across handlers; on every explored path the timer "
+                    "contract (one pending instance per name; an overridden or cancelled instance never fires; every "
+                    "instance fires at most once) is replayed over the trace.",
+            "assumptions": SIM_ASSUMPTIONS + ["known finding F10 (model checking: the overridden timer still fires) is listed"]},
     "C09": {
         "suites": [suite_mc, suite_mc_staged],
         "rule": MC_RULE + "Each run is executed twice on the same ModelChecker. distinct_nontrivial = distinct scenarios "
@@ -784,6 +934,62 @@ PROPERTIES = {
             "process save/restore is exact (the property's own side condition; true of the harness's ScriptProc)",
             "aliasing between the checker's copies and the source System is invisible to a value-passing model: "
             "covered by the repeated-run monitors only (PARTIAL for the clause 'the System it was created from is untouched')"],
+    },
+    "C02": {
+        "suites": [suite_mc, suite_mc_timers],
+        "rule": MC_RULE + "Every run is repeated by the extracted REFERENCE SEMANTICS (Spec/RefSys: same system layer "
+                "over the one-list store specification) and the sets of states (projection: process states, outboxes, "
+                "crash flags, pending events with options, offered sets) must coincide; verbose timer scenarios check "
+                "the timer contract on every path. distinct_nontrivial as C09.",
+        "assumptions": STD_ASSUMPTIONS + ["handler_closed: processes send only to existing processes",
+                                          "known finding F10 (overridden timer still fires) is excluded by class, see known_findings.json"],
+    },
+    "C03": {
+        "suites": [suite_mc, suite_mc_matrix_sb],
+        "rule": MC_RULE + "Reference-semantics exploration as for C02 (exhaustiveness = no reference state missing). "
+                "Matrix: each base system under BFS/DFS x Full/Partial/Disabled with state-based predicates.",
+        "assumptions": STD_ASSUMPTIONS + ["state-based predicates; clock-independent draw-free programs; override-free "
+                                          "steps (F10); runs that return"],
+    },
+    "C10": {
+        "suites": [suite_mc_matrix_sb, suite_mc_matrix],
+        "rule": "Each base system (as in MC scenarios) explored under BFS and DFS in all three visited modes: with "
+                "state-based predicates (no depth bound) the evaluated sets and verdicts are compared; with a common "
+                "depth bound verdict kinds and error depths (BFS error depth <= DFS error depth). "
+                "distinct_nontrivial = base systems with >= 40 evaluated states over the six runs and timers or faults.",
+        "assumptions": STD_ASSUMPTIONS + ["state-based predicates; clock-independent programs"],
+    },
+    "C11": {
+        "suites": [suite_mc_matrix_sb, suite_mc_matrix, suite_clock],
+        "rule": "as C10, comparing Full / Partial / Disabled; plus clock-reading programs (known finding F14: witness "
+                "and random stream, Full vs Disabled).",
+        "assumptions": STD_ASSUMPTIONS + ["no 64-bit hash collision (Partial is modelled as Full)",
+                                          "known findings F14 (clock-reading programs) and F10 are excluded by class"],
+    },
+    "C14": {
+        "suites": [suite_mc, suite_mc_staged],
+        "rule": MC_RULE + "A fifth of the scenarios crash a node in the callback (several processes per node, messages "
+                "in both directions and timers pending); every evaluated state is checked: no pending event touches a "
+                "process of a crashed node, the crashed nodes' process entries never change. distinct_nontrivial as C09.",
+        "assumptions": STD_ASSUMPTIONS + ["McNetwork::reset is not called after the crash (C14_reset_after_crash_refuted)"],
+    },
+    "C16": {
+        "suites": [suite_mc_staged, suite_mc],
+        "rule": MC_RULE + "Staged: stage 1 collects (depth / outbox / no-events predicates), stage 2 continues from the "
+                "collected set after a further callback (run_from_states_with_change), Debug mode; collected sets and "
+                "status counters are checked against the evaluated states. distinct_nontrivial = staged scenarios with "
+                ">= 2 start states and >= 4 states in stage 2, plus MC scenarios as C09.",
+        "assumptions": STD_ASSUMPTIONS + ["state-based predicates; all start states share the network settings"],
+    },
+    "C19": {
+        "suites": [suite_mc, suite_mc_staged],
+        "rule": MC_RULE + "On EVERY state handed to the invariant a battery of 65 instances of the library predicates "
+                "(all of src/mc/predicates.rs except time_limit: depth limits with boundary parameters, received_messages "
+                "with three expected sets and a wrong node, got_n_local_messages, no_events, depth_reached, always_ok, "
+                "event_happened_n_times_current_run, sent_messages_limit, events_limit(_per_proc), proc_permutations "
+                "with four lists, the collects, all combinators, the four defaults) is evaluated with the real functions "
+                "and by the Gallina model; staged runs give several McStarted entries. distinct_nontrivial as C09/C16.",
+        "assumptions": STD_ASSUMPTIONS + ["known finding F11 (state_depth_current_run measures trace length) is listed"],
     },
     "C12": {
         "suites": [suite_netsweep, suite_mc],
